@@ -264,6 +264,20 @@ def run(ctx):
                    'replace it' % (sq(n)[:50], akey))
     # seeding order: predefined constants first, caller's table second (the caller can override)
     seeds = [(n.get('l'), sq(n)) for k_, n in writes if (arm_of_line(pp, n.get('l')) is None) and k_ == 'insert']
+    if not seeds:
+        # the seeding may live in a private helper that builds and returns the table: `let mut defines = initial_defines(pre_defines);`
+        for st_ in pp.loop_fn['body']['stmts']:
+            if st_['k'] == 'let' and 'init' in st_ and tab in [x for x in sx.pat_idents(st_['pat']) if x] and sx.is_call(st_['init']) and st_['init']['f']['p'] in pp.fns:
+                h_ = pp.fns[st_['init']['f']['p']]
+                hp_ = [sx.pat_idents(q['pat'])[0] for q in h_['sig']['params'] if q.get('k') == 'typed']
+                amap_ = {p_: sq(sx.strip_ref(a_)) for p_, a_ in zip(hp_, st_['init']['args'])}
+                hs_ = h_['body']['stmts']
+                if hs_ and hs_[-1]['k'] == 'expr' and not hs_[-1].get('semi') and sx.is_path(hs_[-1]['e']):
+                    hv_ = hs_[-1]['e']['p']
+                    for n in sx.walk(h_['body']):
+                        if n.get('k') == 'mcall' and n['m'] == 'insert' and sx.is_path(n['recv'], hv_):
+                            t_ = sq(n).replace(hv_ + '.insert(', tab + '.insert(', 1)
+                            seeds.append((n.get('l'), t_))
     w.inst('seed-order', {'seed_inserts': [s_[1][:50] for s_ in seeds]})
     if len(seeds) != 2 or 'pre_defines' in seeds[0][1] or not ('k.clone()' in seeds[1][1] and 'v' in seeds[1][1]):
         w.fail('%s:define-table-seed' % CRATE, pp.where(pp.loop_fn['l']), 'the table must be seeded with the predefined constants and then with every caller-supplied entry unchanged; found %s' % seeds)
